@@ -34,7 +34,7 @@ EXTENDS DispatchCore, TLC, Json, SequencesExt
 
 CONSTANTS Members,     \* the universe of declaration members
           MaxDecl,     \* declarations have 1..MaxDecl members
-          AllOrders,   \* TRUE: every member may be the first listed one; FALSE: only where no success response is declared
+          AllOrders,   \* TRUE: the full family (every variant combination, every listing order); FALSE: the stratified one
           Statuses,    \* statuses the server may answer with
           BodyKinds,   \* bodies the server may answer with (SUBSET Bodies)
           BodyStatuses,\* the statuses that are answered with every body kind (the others: "object" only)
